@@ -235,7 +235,14 @@ fn profile() -> Profile {
 
 /// modes in the DIFF world keep owner access so that the verdict does not depend on the uid
 fn safe_mode(m: u32, dir: bool) -> u32 {
-    (m & 0o777) | if dir { 0o700 } else { 0o600 }
+    // (of the three special bits only the sticky bit of a directory has no side effect for an
+    // unprivileged owner: set-id bits are cleared by the kernel on write, a set-gid directory
+    // hands its bit on to what is created in it)
+    if dir {
+        (m & 0o1777) | 0o700
+    } else {
+        (m & 0o777) | 0o600
+    }
 }
 
 fn sanitize(op: &mut Op) {
